@@ -120,6 +120,4 @@ def run(chk):
 
 
 def replay(path):
-    r = json.load(open(path))
-    print(json.dumps(r.get("first") or r.get("broken_theorems") or r.get("correspondence_breaks"), indent=1, default=str)[:4000])
-    return 1 if r.get("first") else 0
+    return c06.replay(path, monitor)
